@@ -95,7 +95,6 @@ Proof. intros s k h (y & E & _ & H). exists y. auto. Qed.
 
 Section WithNH.
 Variable NH : bytes -> list entry -> bytes.
-Hypothesis NH_truthy : forall d es, NH d es <> [].
 Variable rank : nat -> nat.
 
 Notation Inv0 := (Inv0 NH).
@@ -248,14 +247,14 @@ Proof.
 Qed.
 
 Lemma update_hash_ok : forall fuel force,
-  good (update_hash NH fuel force) (fun k => rank k < fuel) force.
+  good (update_hash NH false fuel force) (fun k => rank k < fuel) force.
 Proof.
   induction fuel as [|f IH]; intros force n s I Rk L B; [lia|].
   destruct (get_lt s n L) as [x E]. simpl. unfold get. rewrite E. simpl.
-  assert (RET : forall b h, cached x = Some (b :: h) ->
-     exists s' h0, Ok (s, b :: h) = Ok (s', h0) /\ Inv0 s' /\ shape s s' /\ (false = false -> grows s s') /\
+  assert (RET : forall h, cached x = Some h ->
+     exists s' h0, Ok (s, h) = Ok (s', h0) /\ Inv0 s' /\ shape s s' /\ (false = false -> grows s s') /\
        hashed_val s' n h0 /\ (I4s s -> I4s s' /\ keepc s s')).
-  { intros b h C. exists s, (b :: h). split; auto. split; auto. split; [apply shape_refl|].
+  { intros h C. exists s, h. split; auto. split; auto. split; [apply shape_refl|].
     split; [intros; apply grows_refl|]. split.
     - exists x. split; auto. split; auto. unfold hashed. rewrite C. reflexivity.
     - intro I4. split; auto. apply keepc_refl. }
@@ -265,9 +264,9 @@ Proof.
   assert (REC : forall s1, Inv0 s1 -> shape s s1 -> (force = false -> grows s s1 /\ hashed x = false) ->
      (I4s s -> I4s s1 /\ keepc s s1 /\ (force = true -> cleared s1 n)) ->
      exists s' h,
-       (s2 <- fold_res (fun k t => r <- update_hash NH f force k t ;; Ok (fst r)) (map snd (kids x)) s1 ;;
-        r <- compute NH (update_hash NH f false) n s2 ;;
-        Ok (upd n (set_cached (Some (snd r))) (fst r), snd r)) = Ok (s', h) /\
+       (s2 <- fold_res (fun k t => r <- update_hash NH false f force k t ;; Ok (fst r)) (map snd (kids x)) s1 ;;
+        r <- compute NH (update_hash NH false f false) n s2 ;;
+        Ok (upd n (set_cached (store false (snd r))) (fst r), snd r)) = Ok (s', h) /\
        Inv0 s' /\ shape s s' /\ (force = false -> grows s s') /\ hashed_val s' n h /\
        (I4s s -> I4s s' /\ keepc s s')).
   { intros s1 I1' Sh1 G1 K1.
@@ -284,10 +283,8 @@ Proof.
     pose proof (grows_shape _ _ G3) as Sh3.
     destruct (F2_nth _ _ _ _ _ G3 Ex2) as (x3 & Ex3 & ((Kd3 & D3 & Ks3 & P3) & C3 & Hc3)).
     set (s4 := upd n (set_cached (Some h)) s3).
-    assert (Tr : h <> []).
-    { inversion F3; subst. apply NH_truthy. }
     assert (Hh : hashed (set_cached (Some h) x3) = true).
-    { unfold hashed; simpl. destruct h; congruence. }
+    { unfold hashed; simpl. reflexivity. }
     assert (Sg : nshape x3 (set_cached (Some h) x3)) by (unfold nshape; simpl; auto).
     assert (I4' : Inv0 s4).
     { apply (Inv0_upd s3 n x3); auto.
@@ -332,9 +329,9 @@ Proof.
   assert (NOFORCE : force = false -> hashed x = false ->
      exists s' h,
        (s1 <- (if force then inval n s else Ok s) ;;
-        s2 <- fold_res (fun k t => r <- update_hash NH f force k t ;; Ok (fst r)) (map snd (kids x)) s1 ;;
-        r <- compute NH (update_hash NH f false) n s2 ;;
-        Ok (upd n (set_cached (Some (snd r))) (fst r), snd r)) = Ok (s', h) /\
+        s2 <- fold_res (fun k t => r <- update_hash NH false f force k t ;; Ok (fst r)) (map snd (kids x)) s1 ;;
+        r <- compute NH (update_hash NH false f false) n s2 ;;
+        Ok (upd n (set_cached (store false (snd r))) (fst r), snd r)) = Ok (s', h) /\
        Inv0 s' /\ shape s s' /\ (force = false -> grows s s') /\ hashed_val s' n h /\
        (I4s s -> I4s s' /\ keepc s s')).
   { intros Fz Hx. subst force. simpl. apply (REC s); auto.
@@ -344,9 +341,9 @@ Proof.
   assert (FORCE : force = true ->
      exists s' h,
        (s1 <- (if force then inval n s else Ok s) ;;
-        s2 <- fold_res (fun k t => r <- update_hash NH f force k t ;; Ok (fst r)) (map snd (kids x)) s1 ;;
-        r <- compute NH (update_hash NH f false) n s2 ;;
-        Ok (upd n (set_cached (Some (snd r))) (fst r), snd r)) = Ok (s', h) /\
+        s2 <- fold_res (fun k t => r <- update_hash NH false f force k t ;; Ok (fst r)) (map snd (kids x)) s1 ;;
+        r <- compute NH (update_hash NH false f false) n s2 ;;
+        Ok (upd n (set_cached (store false (snd r))) (fst r), snd r)) = Ok (s', h) /\
        Inv0 s' /\ shape s s' /\ (force = false -> grows s s') /\ hashed_val s' n h /\
        (I4s s -> I4s s' /\ keepc s s')).
   { intro Ft. destruct (inval_ok n s (I_wfp NH s I) L) as (s1 & E1 & RR1 & C1).
@@ -355,7 +352,7 @@ Proof.
     - apply R_shape. apply RR1.
     - discriminate.
     - intro I4. split; [eapply I4s_R; eauto; apply RR1|]. split; [apply R_keepc; apply RR1|]. auto. }
-  destruct (cached x) as [[|b h]|] eqn:Cx; destruct force; auto;
+  destruct (cached x) as [h|] eqn:Cx; destruct force; auto;
     try (apply NOFORCE; auto; unfold hashed; rewrite Cx; reflexivity).
 Qed.
 
@@ -363,27 +360,26 @@ End WithNH.
 
 Section Top.
 Variable NH : bytes -> list entry -> bytes.
-Hypothesis NH_truthy : forall d es, NH d es <> [].
 Variable rank : nat -> nat.
 Notation Inv0 := (Inv0 NH).
 
-Lemma read_hash_good : good NH rank (read_hash NH) (fun _ => True) false.
+Lemma read_hash_good : good NH rank (read_hash NH false) (fun _ => True) false.
 Proof.
   intros k s I Rk L _. unfold read_hash.
-  apply (update_hash_ok NH NH_truthy rank (S (length s)) false k s I Rk L).
+  apply (update_hash_ok NH rank (S (length s)) false k s I Rk L).
   destruct Rk as [_ B]. specialize (B k). lia.
 Qed.
 
-Lemma force_hash_good : good NH rank (force_hash NH) (fun _ => True) true.
+Lemma force_hash_good : good NH rank (force_hash NH false) (fun _ => True) true.
 Proof.
   intros k s I Rk L _. unfold force_hash.
-  apply (update_hash_ok NH NH_truthy rank (S (length s)) true k s I Rk L).
+  apply (update_hash_ok NH rank (S (length s)) true k s I Rk L).
   destruct Rk as [_ B]. specialize (B k). lia.
 Qed.
 
 Lemma entries_ok : forall n s, Inv0 s -> ranked rank s -> n < length s ->
-  (exists e, entries NH n s = Err e /\ e <> EFuel /\ e <> EHandle) \/
-  exists s' es x, entries NH n s = Ok (s', es) /\ Inv0 s' /\ grows s s' /\
+  (exists e, entries NH false n s = Err e /\ e <> EFuel /\ e <> EHandle) \/
+  exists s' es x, entries NH false n s = Ok (s', es) /\ Inv0 s' /\ grows s s' /\
     nth_error s n = Some x /\ FreshKids NH s' (kids x) es.
 Proof.
   intros n s I Rk L. destruct (get_lt s n L) as [x E]. unfold entries, get. rewrite E. simpl.
@@ -407,8 +403,8 @@ Proof.
 Qed.
 
 Lemma to_model_ok : forall n s, Inv0 s -> ranked rank s -> n < length s ->
-  (exists e, to_model NH n s = Err e /\ e <> EFuel /\ e <> EHandle) \/
-  exists s' es x, to_model NH n s = Ok (s', es) /\ Inv0 s' /\ grows s s' /\
+  (exists e, to_model NH false n s = Err e /\ e <> EFuel /\ e <> EHandle) \/
+  exists s' es x, to_model NH false n s = Ok (s', es) /\ Inv0 s' /\ grows s s' /\
     nth_error s n = Some x /\ FreshKids NH s' (kids x) es.
 Proof.
   intros n s I Rk L. destruct (get_lt s n L) as [x E]. unfold to_model, get. rewrite E. simpl.
